@@ -52,10 +52,44 @@ def p_c09(facts, rep, tier):
     rep.trust("rustc MIR (nightly, mir-opt-level=0)", "rules/guardfx.py tables")
 
 
+def p_c14(facts, rep, tier):
+    import errflow
+    import strands
+
+    rep.explanation = (
+        "C14 (structure): error discipline over every call site of crate nomt. R1: no I/O-carrying Result "
+        "(io::Error, anyhow::Error, BucketExhaustion) is dropped or thrown away by a discarding consumer; R2: every CompleteIo has "
+        "its `.result` checked (or is handed on whole) on every success path; R3: every spawned task's channel has a join_task on the "
+        "paired receiver; R4: in the five mutating entry points the failure edge of every fallible repo call at or after an effect "
+        "passes a poisoning site (or the callee is proved self-poisoning), and Store::commit refuses when poisoned before starting a sync. "
+        "On-disk atomicity after a failure and liveness are not decided."
+    )
+    st = strands.Strands(facts)
+    n1 = errflow.r1_no_dropped_results(facts, rep)
+    n2 = errflow.r2_completions_checked(facts, rep)
+    n3, nj = errflow.r3_tasks_joined(facts, rep, st)
+    n4 = errflow.r4_error_exits_poison(facts, rep)
+    n_fn, n_eff, n_guard = guardfx.run(facts, rep, "C14")
+    rep.floor("R1 fallible call sites", n1, 450)
+    rep.floor("R2 CompleteIo values", n2, 12)
+    rep.floor("R3 spawn sites", n3, 10)
+    rep.floor("R3 join sites", nj, 11)
+    rep.floor("R4 fallible calls at/after an effect", n4, 9)
+    rep.floor("poisoned-refusal guard", n_guard, 1)
+    rep.extra["positive_controls"] = errflow.positive_controls()
+    rep.assume(
+        "accepted consumption idioms: `?`, unwrap/expect, match/if-let on the discriminant, return, move into a call/aggregate/field (responsibility transfers)",
+        "discarding consumers are exactly rules/errflow.py DISCARDERS",
+        "path feasibility is ignored; unwind (cleanup) paths are not analysed",
+    )
+    rep.trust("rustc MIR (nightly, mir-opt-level=0)", "rules/errflow.py idiom tables", "rules/strands.py channel identity")
+
+
 PROPS = {
     "C09": p_c09,
     "C11": p_c11,
     "C12": p_c12,
+    "C14": p_c14,
 }
 
 
